@@ -4,9 +4,11 @@ import (
 	"context"
 	"fmt"
 	"io"
+	"net/url"
 	"os"
 	"os/signal"
 	"path/filepath"
+	"strings"
 	"sync"
 
 	"github.com/polydawn/refmt"
@@ -38,7 +40,8 @@ func CancelOnInterrupt(cancel context.CancelFunc) {
 }
 
 // Holder type which makes it easier for us to inspect
-//  the args parser result in test code before running logic.
+//
+//	the args parser result in test code before running logic.
 type behavior struct {
 	parsedArgs interface{}
 	action     func() error
@@ -170,6 +173,22 @@ func Parse(ctx context.Context, args []string, stdin io.Reader, stdout, stderr i
 				return Recategorize(rio.ErrUsage, err)
 			}
 			filt = filt.Apply(api.FilesetUnpackFilter_LowPriv)
+			// The target is emptied first.  Make sure that is the target, and nothing we are about to read:
+			//  a symlink would have us empty the directory it points at;
+			//  a local source warehouse below the target would be gone before it is read.
+			if fi, err := os.Lstat(path); err == nil && fi.Mode()&os.ModeSymlink != 0 {
+				return Errorf(rio.ErrInoperablePath, "unpack target %q is a symlink", path)
+			}
+			for _, src := range args.SourcesWarehouseLocation {
+				u, err := url.Parse(src)
+				if err != nil || (u.Scheme != "file" && u.Scheme != "ca+file") {
+					continue
+				}
+				srcPath, err := filepath.Abs(filepath.Join(u.Host, u.Path))
+				if err == nil && (srcPath == path || strings.HasPrefix(srcPath, strings.TrimSuffix(path, "/")+"/")) {
+					return Errorf(rio.ErrUsage, "source warehouse %q lies inside the unpack target %q, which is emptied first", src, path)
+				}
+			}
 			err = fsOp.RemoveDirContent(osfs.New(fs.MustAbsolutePath(path)), fs.RelPath{})
 			if err != nil {
 				return Recategorize(rio.ErrInoperablePath, err)
